@@ -47,3 +47,21 @@ Example C06_example :
   let o := mkOut 21000 false 0 [(7, -5); (8, 5)] 0 false in
   map r_out (snd (run s [Eth t o; Eth t o])) = [Executed false; RejAnte E_INVALID_SEQUENCE].
 Proof. vm_compute. reflexivity. Qed.
+
+(* ... also when the first inclusion failed AFTER admission: value above the balance (consensus-level error) for a call
+   and for a contract creation, and block gas exhausted by the execution; every replay is refused (invalid sequence)
+   and the sequence ends at 1 *)
+Example C06_example_replay_after_failure :
+  let s := mkSt (fun a => if a =? 7 then 10^18 else 0) (fun _ => 0) (fun a => a =? 7) (fun _ => false)
+                (5 * 10^18) 1000 0 0 0 0 0 0 false false in
+  let call := mkTx 7 (Some 7) true false 2000 0 0 30000 0 (10^18) false 21000 in
+  let crea := mkTx 7 (Some 7) true false 2000 0 0 90000 0 (10^18) true 53000 in
+  let o := mkOut 21000 false 0 [] 0 false in
+  let sg := mkSt (bal s) (sqn s) (acc_exists s) (has_code s) (supply s) 1000 0 25000 0 0 0 0 false false in
+  let okc := mkTx 7 (Some 7) true false 2000 0 0 30000 0 5 false 21000 in
+  map r_out (snd (run s [Eth call o; Eth call o])) = [CoreErr; RejAnte E_INVALID_SEQUENCE] /\
+  map r_out (snd (run s [Eth crea o; Eth crea o])) = [CoreErr; RejAnte E_INVALID_SEQUENCE] /\
+  map r_out (snd (run sg [Eth okc (mkOut 26000 false 0 [] 0 false); Eth okc o])) = [BlockGasExceeded; Dropped] /\
+  sqn (fst (run s [Eth crea o; Eth crea o])) 7 = 1 /\
+  sqn (fst (run sg [Eth okc (mkOut 26000 false 0 [] 0 false); Eth okc o])) 7 = 1.
+Proof. vm_compute. repeat split; reflexivity. Qed.
